@@ -1164,6 +1164,17 @@ class Checker(object):
                 if bn == 'list' and re.search(r':type [^:\n]*:[^\n]*(list|tuple)', doc):
                     continue       # a sequence is one of the documented forms of this argument (Angle, Epoch, ...)
                 trials.append(('pos%d:%s' % (i - first, bn), specs[:i] + [bv] + specs[i + 1:]))
+        # an ill-typed value that COMPARES EQUAL (and hashes equal) to the valid number it replaces, tried right
+        # after the valid call: anything that remembers results by argument would answer it from memory
+        eqv = [i for i in range(first, len(specs)) if isinstance(specs[i], (int, float)) and not isinstance(specs[i], bool)
+               and specs[i] == specs[i] and abs(specs[i]) < 1e300]
+        if eqv:
+            try:
+                invoke(r[0], decode(specs, L))
+            except Exception:   # noqa
+                eqv = []
+        for i in eqv[:3]:
+            trials.append(('pos%d:complex-equal' % (i - first), specs[:i] + [{'complex': [float(specs[i]), 0.0]}] + specs[i + 1:]))
         trials.append(('arity:+1', specs + [1.0, 2.0, 3.0, 4.0, 5.0, 6.0, 7.0, 8.0, 9.0, 10.0, 11.0, 12.0, 13.0]))
         if len(specs) > first:
             trials.append(('arity:-all', specs[:first]))
